@@ -439,6 +439,9 @@ func (chunk *IDChunk) ReadFrom(r io.Reader) (int64, error) {
 		if err != nil {
 			return bytesRead, err
 		}
+		if blockBytesRead > int64(blockLen) {
+			return bytesRead, fmt.Errorf("IDBlock runs past the IDChunk length %d", chunkLen)
+		}
 		chunk.Blocks = append(chunk.Blocks, name)
 	}
 
